@@ -194,6 +194,10 @@ func (b *FSBucket) Objects(ctx context.Context, prefix string) ObjectIterator {
 		os.DirFS(filepath.Join(b.dir, b.bucket)),
 		".",
 		func(path string, d fs.DirEntry, err error) error {
+			if err != nil {
+				// d may be nil, e.g. when the bucket directory does not exist.
+				return err
+			}
 			if d.IsDir() {
 				return nil
 			}
